@@ -9,10 +9,11 @@ Content-Encoding are decoded with part.read(decode=True), text(), json(), form()
 by forwarding the part as a payload (BodyPartReaderPayload.write() into a recording writer).
 World C: a scripted raw server answers a real ClientSession; the caller consumes the
 response body with read(), content.read(n), iter_chunked, iter_any, readany, readchunk,
-readline, and MultipartReader.from_response() + part.decode_iter().
+readline / readuntil / `async for line in content`, and MultipartReader.from_response() + part.decode_iter().
 
 Oracles: ref/codec.py (one-shot reference decoding with the codec libraries), the resident
-decoded-bytes bound sampled after every loop step, the size of the pieces a part decoder hands
+decoded-bytes bound sampled after every loop step and at the end of the stream-consuming call (a call that ends
+inside one step may feed and drain the buffer re-entrantly within it), the size of the pieces a part decoder hands
 out and the bytes one part-decoding call allocates and keeps alive at once (tracemalloc window),
 and the progress judgement at quiescence.
 """
@@ -44,7 +45,9 @@ ENUM_RULE = ("codec (gzip, zlib-deflate, raw deflate, br, zstd) x world (S, C) x
              "EOF-delimited for C) x compressed stream cut at every 1/16th (0..16, 16 = intact), fixed small payload; plus "
              "multipart part with its own Content-Encoding: decoding entry point (read(decode=True), text, json, form, "
              "decode_iter, forwarded as payload; client: decode_iter) x part coding (gzip, deflate) x encoded part below / above 4 KiB x "
-             "(client_max_size 64 KiB, 4 MiB part) / (client_max_size 1 MiB, 600 KiB part)")
+             "(client_max_size 64 KiB, 4 MiB part) / (client_max_size 1 MiB, 600 KiB part); plus a line-oriented consumer (readline / "
+             "readuntil / async for) on three lines followed by a separator-less run of 200 x read_bufsize: codec x world x "
+             "(Content-Length, chunked)")
 TECHNIQUE = ("deterministic simulation: real server / real client on a virtual-time loop and in-memory network, scripted "
              "raw peer, seeded segmentation x consumer schedule x buffer limits, reference decoding with the codec "
              "libraries, resident-bytes bound sampled after every loop step, blocked-consumer judgement at quiescence")
@@ -59,6 +62,9 @@ LEVEL_TEXT = (
     "the 4 KiB from which aiohttp inflates a part through the executor) and inflates to 0.3..8 MiB; the part is "
     "decoded through read(decode=True) / text() / json() / form() / decode_iter() / BodyPartReaderPayload.write() (server) "
     "or decode_iter() (client). "
+    "10 % of the scenarios give a line-oriented consumer (readline / readuntil / async for) a body of ordinary lines and "
+    "separator-less runs of 0.5 .. 4000 x read_bufsize (on and next to the 2 x read_bufsize at which a partial line is given "
+    "up), decoded size <= 1 MiB; what had been fed and not handed over is also sampled when the consuming call ends. "
     "Sampling, not proof."
 )
 LEVEL_NOTE = (
@@ -70,14 +76,15 @@ LEVEL_NOTE = (
     "decoding: one decode_iter() piece <= 4 * max(256 KiB step, read_bufsize); bytes allocated and alive at once inside one "
     "part.read(decode=True)/text()/json()/form() call (tracemalloc peak between entering and leaving the call, everything "
     "the simulator and harness allocate meanwhile included) <= resident bound + 6 * client_max_size + 4 steps of 256 KiB "
-    "+ 1 MiB; measured on the unchanged tree: <= 0.42 of that bound. Loop steps <= 1000 + 12 * (deliveries + consumer reads + peer writes + decoded/L). HttpPayloadParser._paused is read once per step only to *name* failures caused by the known stale-pause-flag defect (C09-F4), never to decide one."
+    "+ 1 MiB; measured on the unchanged tree: <= 0.42 of that bound. At the end of a stream-consuming call (return or exception, e.g. LineTooLong) the resident bound carries one more piece (max(L, largest transport read)): line <= 2*limit + one piece, buffer <= 2*limit + one piece by construction; measured on the unchanged tree: exactly 6.0*L at most against 7*L + reads. Loop steps <= 1000 + 12 * (deliveries + consumer reads + peer writes + decoded/L). HttpPayloadParser._paused is read once per step only to *name* failures caused by the known stale-pause-flag defect (C09-F4), never to decide one."
 )
 RULE = (
     "Run = world (S request body / C response body) x codec x payload shape x mutation x framing (Content-Length, "
     "chunked with chunk sizes 1..4096, EOF-delimited) x write pieces with delays x segmentation policy x latency x "
     "net.hold window x consumer (API, read size, sleep pattern, stall, early stop) x read_bufsize x client_max_size x "
     "peer close after the last byte; part_bomb scenarios: decoding entry point x part coding x incompressible head "
-    "0..12000 B x run 0.3..8 MiB x 0..2 further small parts x client_max_size 16 KiB..1 MiB. Non-trivial: the body (or "
+    "0..12000 B x run 0.3..8 MiB x 0..2 further small parts x client_max_size 16 KiB..1 MiB; long_line scenarios: line API x 0..40 ordinary lines x 1..3 "
+    "separator-less runs of read_bufsize x {0.5, 1, 2, 3, 8, .. 4000} (-1, 0, +1) x fill unit. Non-trivial: the body (or "
     "a part of it) was compressed and at least one of {transport paused, decoded size (of the body or of a part) >= 8*L, "
     "reference decoder failed, consumer slept between reads}. Distinct = interleaving signature."
 )
@@ -123,6 +130,11 @@ PART_STEP = 1 << 18  # the step in which a part is decoded (BodyPartReader max_d
 # part.read(decode=True) / text() / json() / form() / decode_iter() / the part forwarded as a payload (BodyPartReaderPayload.write)
 PART_VIAS = ["read", "read", "text", "json", "form", "iter", "iter", "payload"]
 PART_SHARE = 0.08
+# a line-oriented consumer (readline / readuntil / `async for line in content`) facing separator-less runs whose length is
+# set relative to the read buffer limit (scenario kind "long_line")
+LINE_SHARE = 0.10
+LINE_APIS = ["readline", "readline", "aiter", "readuntil"]
+LINE_RUNS = [(1, 2), (1, 1), (2, 1), (2, 1), (3, 1), (8, 1), (20, 1), (50, 1), (100, 1), (400, 1), (1000, 1), (4000, 1)]  # run length = limit * a / b (+ -1, 0, 1)
 MEM_NOISE = 1 << 20  # allocations of the harness and the simulator inside a measured window (event log, deliveries, first-use caches)
 
 
@@ -304,11 +316,34 @@ def gen(rng, tier, index):
     # Sampled after everything else was drawn, so that all other scenarios are exactly what they were before.
     if rng.random() < PART_SHARE:
         scn = _gen(rng, tier, index, "part_bomb")
+    if rng.random() < LINE_SHARE:
+        scn = _gen(rng, tier, index, "long_line")
     return scn
+
+
+def _line_runs(rng, limit: int, cap: int) -> bytes:
+    """Decoded body for a line-oriented consumer: a few ordinary lines, then one to three runs of one repeated unit without
+    a line separator whose lengths are set relative to the read buffer limit (half of it .. thousands of times it,
+    on and next to the 2 x limit at which a partial line is to be given up), each followed by a separator or the end
+    of the body."""
+    line = PATTERNS["line"]
+    out = bytearray(line * rng.choice([0, 0, 1, 5, 40]))
+    for _ in range(rng.choice([1, 1, 1, 2, 3])):
+        a, b = rng.choice(LINE_RUNS)
+        k = max(1, min(cap - len(out), limit * a // b + rng.choice([-1, 0, 0, 1])))
+        unit = PATTERNS[rng.choice(["zero", "zero", "a", "kv"])]
+        out += (unit * (k // len(unit) + 1))[:k]
+        if rng.random() < 0.6:
+            out += b"\n" + line * rng.choice([0, 0, 1, 5])
+        if len(out) >= cap:
+            break
+    return bytes(out[:cap])
 
 
 def _gen(rng, tier, index, force):
     thorough = tier == "thorough"
+    ll = force == "long_line"
+    force = force == "part_bomb"
     world = rng.choice("SC")
     codec = rng.choice(["gzip"] * 6 + ["deflate"] * 5 + ["br"] * 4 + ["zstd"] * 4 + ["identity"] * 2)
     if force and rng.random() < 0.5:
@@ -319,6 +354,10 @@ def _gen(rng, tier, index, force):
     if force:
         # (a client has no client_max_size: part.read() on a response is unlimited by design, so only decode_iter() there)
         world, mode = rng.choice("SSSC"), "mp_decode"
+    if ll:
+        mode = "readline"
+        if codec == "identity" and rng.random() < 0.7:
+            codec = rng.choice(["gzip", "deflate", "br", "zstd"])
     if mode == "readline" and limit < 64:
         limit = 64
     n = max(1, rng.choice([1, 3, 7, limit // 2, limit, limit + 1, 2 * limit, 4 * limit + 3, 1000, 4096, 65536]))
@@ -327,6 +366,8 @@ def _gen(rng, tier, index, force):
     cms = rng.choice([256, 1024, 4096, 16384, 65536, 1 << 20])
     framing = rng.choice(["cl", "chunked", "chunked"] + (["eof"] if world == "C" else []))
     consumer = {"mode": mode, "n": n, "every": [0, 0], "pauses": [], "stop_after": None}
+    if ll:
+        consumer["line_api"] = rng.choice(LINE_APIS)
     if force:
         cms = rng.choice([16384, 65536, 65536, 65536, 1 << 18, 1 << 20])
         consumer["via"] = rng.choice(PART_VIAS) if world == "S" else "iter"
@@ -358,6 +399,11 @@ def _gen(rng, tier, index, force):
     if force:
         plain, ctype = _part_bomb_doc(rng, consumer["via"], thorough)
         kind = "part_bomb"
+        members = [RC.compress(codec, plain, raw=raw)]
+    elif ll:
+        # (few reads whatever the size: the cap on the number of 32-byte lines does not apply)
+        plain = _line_runs(rng, limit, (16 << 20) if thorough else (64 << 10 if codec == "identity" else 1 << 20))
+        kind = "long_line"
         members = [RC.compress(codec, plain, raw=raw)]
     elif mode in FORM_MODES:
         bomb = kind == "bomb"
@@ -410,6 +456,9 @@ def _gen(rng, tier, index, force):
             mut = "flip"
         elif r < 0.26:
             body, mut = body + rng.randbytes(rng.randint(1, 8)), "garbage"
+    if ll and mut is not None and RC.decode_all(codec, body)["out"].count(b"\n") > 4000:
+        # a flipped bit can turn a run into separators: up to 1 Mi one-byte lines, one read each - beyond a run's step budget
+        body, mut = b"".join(members), None
     hdr = None if codec == "identity" else codec
     if hdr and rng.random() < 0.03:
         hdr = _case(rng, hdr)
@@ -522,6 +571,26 @@ def enumerate_cases(tier, seed):
                         # (a forwarded part is decoded chunk by chunk - known finding C09-F8 -: it travels in one read here)
                         "seg": "whole" if via == "payload" else "mss",
                     }
+    # A line-oriented consumer and a separator-less run of 200 x read_bufsize after three ordinary lines: codec x world x
+    # framing, the way of reading lines rotating.
+    k = 0
+    for world in "SC":
+        for codec, raw in (("gzip", False), ("deflate", False), ("deflate", True), ("br", False), ("zstd", False)):
+            plain = PATTERNS["line"] * 3 + b"\0" * (200 * 1024) + b"\n" + PATTERNS["line"]
+            body = RC.compress(codec, plain, raw=raw)
+            for framing in ("cl", "chunked"):
+                chunks = [4096] if framing == "chunked" else []
+                head = _head(world, codec, "application/octet-stream", framing, len(body), False)
+                wl = len(head) + (len(RC.chunked_encode(body, chunks)) if framing == "chunked" else len(body))
+                yield {
+                    "world": world, "codec": codec, "raw": raw, "limit": 1024, "cms": 1 << 20,
+                    "consumer": {"mode": "readline", "n": 512, "every": [0, 0], "pauses": [], "stop_after": None,
+                                 "line_api": ("readline", "aiter", "readuntil")[k % 3]},
+                    "hdr": codec, "kind": "long_line", "pattern": None, "mut": None, "framing": framing, "chunks": chunks,
+                    "head": head, "body": dec(body), "cut": None, "writes": [[0, wl]], "end": "keep",
+                    "end_delay": 2000 if world == "S" else 1, "seg": "whole" if k % 2 else "mss", "lat": 0, "hold": None,
+                }
+                k += 1
 
 
 def shrink(scn):
@@ -561,6 +630,28 @@ def shrink(scn):
         yield dict(scn, cms=1 << 20)
     if scn["kind"] == "part_bomb":
         yield from _shrink_parts(scn)
+    if c.get("line_api", "readline") != "readline":
+        yield dict(scn, consumer=dict(c, line_api="readline"))
+    if scn["kind"] == "long_line":
+        yield from _shrink_lines(scn)
+
+
+def _shrink_lines(scn):
+    """long_line bodies: the longest line alone; the same without its separator."""
+    if scn["mut"] is not None or scn["cut"] is not None:
+        return
+    r = RC.decode_all(scn["codec"], enc(scn["body"]))
+    if r["status"] != "ok" or not r["out"]:
+        return
+    lines = r["out"].splitlines(keepends=True) if b"\r" not in r["out"] else r["out"].split(b"\n")
+    longest = max(lines, key=len)
+    for plain in (longest, longest.rstrip(b"\n")):
+        if plain and plain != r["out"]:
+            body = dec(RC.compress(scn["codec"], plain, raw=scn["raw"]))
+            if scn["framing"] == "eof":
+                yield dict(scn, body=body, writes=[[0, len(scn["head"]) + len(body)]])
+            else:
+                yield _reframe(dict(scn, body=body), scn["chunks"] if scn["framing"] == "chunked" else None)
 
 
 def _shrink_parts(scn):
@@ -726,6 +817,8 @@ class _St:
         self.peer_done = False
         self.max_res = 0
         self.max_res_step = 0
+        self.max_call = 0  # the same quantity sampled at the moment a stream-consuming call sequence ends (returns or raises)
+        self.max_call_step = 0
         self.max_idle = 0
         self.max_total_active = 0
         self.outcome = None
@@ -796,7 +889,25 @@ def run(scn, ch, log=False):
             await asyncio.sleep(t * TICK)
         return stop_after is not None and st.reads > stop_after
 
+    def sample_active():
+        """Decoded bytes fed to the reader and not yet handed to the consumer, right now."""
+        p = st.payload
+        if p is not None and st.active and not use_size:
+            r = p.total_bytes - st.consumed
+            if r > st.max_call:
+                st.max_call = r
+                st.max_call_step = loop.steps
+
     async def consume_stream(content):
+        try:
+            await consume_stream_(content)
+        finally:
+            # The step hook samples between loop steps.  A call that ends inside one step (returns or raises) may have fed
+            # and taken out of the buffer any amount within that step: what it holds at its end is sampled here, before
+            # the exchange stops being 'active'.
+            sample_active()
+
+    async def consume_stream_(content):
         n = cons["n"]
         if mode == "read_n":
             while True:
@@ -831,8 +942,16 @@ def run(scn, ch, log=False):
                     st.stopped = True
                     return
         elif mode == "readline":
+            api = cons.get("line_api", "readline")
+            if api == "aiter":
+                async for b in content:
+                    take(b)
+                    if await after_read():
+                        st.stopped = True
+                        return
+                return
             while True:
-                b = await content.readline()
+                b = await (content.readuntil(b"\n") if api == "readuntil" else content.readline())
                 if not b:
                     return
                 take(b)
@@ -920,6 +1039,8 @@ def run(scn, ch, log=False):
 
         loop.step_hooks.append(hook)
         reads_est = 50 + (len(ref_out) // max(1, cons["n"]) if mode in ("read_n", "iter_chunked", "multipart") else len(ref_out) // 8)
+        if mode == "readline":  # one read per line: a body of very short lines (a bit flip can turn a run into separators)
+            reads_est = max(reads_est, 50 + ref_out.count(b"\n"))
         sleep_budget = sum(t for _, t in cons["pauses"]) + (ev_t * (reads_est // ev_k + 1) if ev_k else 0)
         horizon = (sum(d for d, _ in pieces) + sleep_budget + (sum(scn["hold"]) if scn["hold"] else 0)) * TICK + 30.0
         decoded_len = len(ref_out)
@@ -1069,6 +1190,17 @@ def run(scn, ch, log=False):
                     f"{st.max_res_step}; bound 4*L + one read = 4*{L} + {slack} = {bound} (read_bufsize={limit}, mode={mode}, "
                     f"n={cons['n']}, client_max_size={cms if world == 'S' else None}, codec={scn['codec']}, decoded size {decoded_len}, "
                     f"body {len(exp.body)} bytes)")
+        # at the end of the consuming call (clean end, payload error, LineTooLong, ...): what the call took out of the buffer
+        # and has not handed over counts as resident, and popping the last piece may have refilled the buffer within the same
+        # step; one more piece (a transport read or a decode step of L) than between steps.
+        # By construction of the unchanged tree: line <= 2*limit + one piece, buffer <= 2*limit + one piece.
+        call_bound = bound + max(rx["max"], L)
+        if not unbounded and st.max_call - st.overhead > call_bound:
+            violate("resident_bound", f"resident_over_bound_at_call_end:{scn['codec']}:{mode}",
+                    f"{st.max_call - st.overhead} decoded bytes had been fed to the reader and not handed to the consumer when its "
+                    f"{cons.get('line_api', mode)} call ended with {oc} {st.detail[:80]} (step {st.max_call_step}); bound 4*L + one read + one piece "
+                    f"(a read or a decode step) = 4*{L} + {slack} + {max(rx['max'], L)} = {call_bound} (read_bufsize={limit}, mode={mode}, codec={scn['codec']}, "
+                    f"decoded size {decoded_len}, longest line {exp.max_line}, body {len(exp.body)} bytes, seg {scn['seg']})")
         idle_bound = 4 * max(limit, L) + slack
         if st.max_idle > idle_bound and not unbounded:  # after read() the limit stays lifted
             one_extra_idle = st.max_idle <= idle_bound + rx["max"] and st.stale_flag
@@ -1166,6 +1298,9 @@ def run(scn, ch, log=False):
             "part_ge_2MiB": int(part_max >= 2 << 20), "part_ge_8L": int(part_max >= 8 * L > 0),
             "part_mem_window": int(st.mem_windows > 0), "part_pieces_ge_2": int(st.max_piece > 0 and part_max > st.max_piece),
             "part_via_" + str(cons.get("via")): int("via" in cons),
+            "long_line": int(scn["kind"] == "long_line"), "line_gt_2limit": int(mode == "readline" and exp.max_line > 2 * limit),
+            "line_ge_8limit_compressed": int(mode == "readline" and compressed and exp.max_line >= 8 * limit),
+            "line_too_long_raised": int(oc == "other:LineTooLong"), "line_api_" + str(cons.get("line_api")): int("line_api" in cons),
         }
         res = {
             "violations": viols, "nontrivial": bool(nontrivial), "sig": stats["sig"], "digest": stats["digest"],
@@ -1178,7 +1313,7 @@ def run(scn, ch, log=False):
             res["debug"] = {"outcome": oc, "detail": st.detail, "pos": st.pos, "decoded": decoded_len, "max_res": st.max_res,
                             "bound": bound, "L": L, "reads": st.reads, "ref": exp.ref["status"], "why": exp.ref["why"],
                             "status": st.status, "steps_at_done": steps_at_done, "events": n_events, "rx_max": rx["max"],
-                            "max_piece": st.max_piece, "mem_peak": st.mem_peak, "mem_bound": mem_bound, "part_lens": exp.part_lens}
+                            "max_call": st.max_call, "call_bound": call_bound, "max_piece": st.max_piece, "mem_peak": st.mem_peak, "mem_bound": mem_bound, "part_lens": exp.part_lens}
         return res
 
 
